@@ -122,7 +122,26 @@ def run(prog, fn="mpq_EGlpNumReadStrXc", slash=47, rule="R-RESCAN"):
                 (inside if bid in region else outside)[av[0]].append(av[1])
     def reads_input(rhs):
         return rhs is not None and any(is_var(x) and strip(x)[2] in sparam for x in walk(rhs))
-    state = sorted(v for v in outside if v not in cursor and not all(reads_input(r) for r in outside[v]))
+    # a variable is part of the scanner's state only if the loop also *reads* it (a condition, a right-hand side, an increment): a flag that
+    # is only ever set inside the loop and examined behind it (a sticky error mark) does not influence how the next part is scanned
+    def read_in_loop(v):
+        for bid in loop:
+            blk = f.blocks[bid]
+            if blk.get("c") is not None and any(is_var(x, name=v, kind="l") for x in walk(blk["c"])):
+                return True
+            for e in blk["e"]:
+                if e[0] == "A":
+                    if any(is_var(x, name=v, kind="l") for x in walk(e[1][3])) or (e[1][1] != "=" and is_var(e[1][2], name=v)):
+                        return True
+                    l0 = strip(e[1][2])
+                    if not is_var(l0) and any(is_var(x, name=v, kind="l") for x in walk(e[1][2])):
+                        return True
+                elif e[0] == "U" and is_var(e[1][2], name=v):
+                    return True
+                elif e[0] in ("C", "S", "R", "X") and e[1] is not None and any(is_var(x, name=v, kind="l") for x in walk(e[1])):
+                    return True
+        return False
+    state = sorted(v for v in outside if v not in cursor and not all(reads_input(r) for r in outside[v]) and read_in_loop(v))
     latches = sorted(v for v in inside if v not in outside and v not in cursor)
     res.counts["state_variables"] = state
     res.counts["latches"] = latches
